@@ -23,3 +23,37 @@ Example C18_quantile_example : (quantile (1 # 2) [7; 1; 4; 10]%Z == 11 # 2)%Q /\
 Proof. vm_compute. split; reflexivity. Qed.
 Example C18_schedule_example : assembled nat 3 (executed nat (fun s => Z.to_nat s) 10 [2; 0; 1]%nat) = [Some 10; Some 11; Some 12]%nat.
 Proof. vm_compute. reflexivity. Qed.
+(* in-place updating hands the caller's objects those same results *)
+Theorem C18_in_place_gets_member : forall (result : Type) (simulate : Z -> result) (obj : Type) (take_over : obj -> result -> obj) base n objs i d,
+  List.length objs = n -> (i < n)%nat ->
+  nth i (update_in_place result obj take_over objs (serial_runs result simulate base n)) d = take_over (nth i objs d) (member result simulate base i).
+Proof. exact in_place_gets_member. Qed.
+Theorem C18_in_place_preserves_count : forall (result obj : Type) (take_over : obj -> result -> obj) objs rs,
+  List.length (update_in_place result obj take_over objs rs) = List.length objs.
+Proof. exact in_place_preserves_count. Qed.
+Theorem C18_in_place_refused_on_length_mismatch : forall (result obj : Type) (take_over : obj -> result -> obj) objs rs,
+  List.length rs <> List.length objs -> update_in_place result obj take_over objs rs = objs.
+Proof. exact in_place_refused_on_length_mismatch. Qed.
+Print Assumptions C18_in_place_gets_member. Print Assumptions C18_in_place_preserves_count. Print Assumptions C18_in_place_refused_on_length_mismatch.
+Example C18_in_place_example : update_in_place Z (Z * Z) (fun o r => (fst o, r)) [(10, 0); (20, 0); (30, 0)]%Z (serial_runs Z (fun s => s * s)%Z 5 3) = [(10, 25); (20, 36); (30, 49)]%Z.
+Proof. vm_compute. reflexivity. Qed.
+(* the reduced statistics are the stated statistics of the members: the 0- and 1-quantiles are the extreme members, every quantile and the mean
+   lie between them, a larger q never gives a smaller value (low <= median <= high), and the variance is order-invariant too *)
+Theorem C18_quantile_between : forall q l L H, l <> [] -> (0 <= q)%Q -> (q <= 1)%Q -> (forall x, In x l -> (L <= x <= H)%Z) ->
+  (inject_Z L <= quantile q l)%Q /\ (quantile q l <= inject_Z H)%Q.
+Proof. exact quantile_between. Qed.
+Theorem C18_quantile_monotone : forall q q' l, l <> [] -> (0 <= q)%Q -> (q <= q')%Q -> (q' <= 1)%Q -> (quantile q l <= quantile q' l)%Q.
+Proof. exact quantile_monotone. Qed.
+Theorem C18_quantile_zero_is_min : forall l, l <> [] -> exists m, In m l /\ (forall x, In x l -> (m <= x)%Z) /\ (quantile 0 l == inject_Z m)%Q.
+Proof. exact quantile_zero_is_min. Qed.
+Theorem C18_quantile_one_is_max : forall l, l <> [] -> exists m, In m l /\ (forall x, In x l -> (x <= m)%Z) /\ (quantile 1 l == inject_Z m)%Q.
+Proof. exact quantile_one_is_max. Qed.
+Theorem C18_mean_between : forall (L H : Q) l, l <> [] -> (forall x, In x l -> (L <= x)%Q /\ (x <= H)%Q) -> (L <= qmean_of l)%Q /\ (qmean_of l <= H)%Q.
+Proof. exact mean_between. Qed.
+Theorem C18_variance_order_invariant : forall l l', Permutation l l' -> (qvar_of l == qvar_of l')%Q.
+Proof. exact variance_order_invariant. Qed.
+Print Assumptions C18_quantile_between. Print Assumptions C18_quantile_monotone. Print Assumptions C18_quantile_zero_is_min.
+Print Assumptions C18_quantile_one_is_max. Print Assumptions C18_mean_between. Print Assumptions C18_variance_order_invariant.
+Example C18_statistics_example : (quantile (1 # 10) [7; 1; 4; 10]%Z <= quantile (1 # 2) [7; 1; 4; 10]%Z)%Q /\ (quantile (9 # 10) [7; 1; 4; 10]%Z == 91 # 10)%Q
+  /\ (qmean_of [7; 1; 4; 10] == 11 # 2)%Q /\ (qvar_of [7; 1; 4; 10] == 45 # 4)%Q.
+Proof. vm_compute. repeat split; try reflexivity; discriminate. Qed.
